@@ -327,6 +327,13 @@ func (n *Node) call(st *Step, fn func()) {
 		}
 		o.AfterCall(n, st)
 	}
+	if st.Panic != nil && s.viol == nil && len(s.oracles) > 0 {
+		// a panic inside the library is a failure of whatever property is being judged (the
+		// node stops deciding, answering, keeping its timer ...); C11 and C16 report it
+		// themselves, the other families report it here instead of letting the node quietly
+		// disappear from the set of live validators
+		s.Violate(s.oracles[0].Name(), "library_panic", fmt.Sprintf("%s: %s panicked: %v", n, st.describe(), st.Panic), n.id)
+	}
 	if st.Panic != nil || n.fatal {
 		// the process would have died: treat as a crash without restart
 		n.fatal = false
@@ -630,6 +637,9 @@ func (n *Node) options() []func(*dbft.Config[Hash]) {
 					n.facts.early[p.Hash()] = true
 					n.facts.anyEarly = true
 					s.probe("early_precommit_before_preheader")
+				}
+				if sc.VerdictPM > 0 && s.tape.Chance(n.stream(SApp), sc.VerdictPM, 1000) {
+					return errProc
 				}
 				return nil
 			}),
